@@ -32,6 +32,20 @@ def plan(tier, seed):
            [{"n_cases": 500, "mode": "AD", "hashseed": i} for i in range(3)]
 
 
+LEAVES = ["Borda", "PickAPerm", "Copeland", "KwikSort", "BordaBucket"]
+
+
+def nested_config(rng, depth=2):
+    """random nested configuration: BioConsert with 1-3 starters / ParCons with an auxiliary, starters themselves nested
+    (several starters of the same class with different nested configurations on purpose)"""
+    if depth == 0 or rng.random() < 0.25:
+        return rng.choice(LEAVES)
+    if rng.random() < 0.7:
+        k = rng.choice([1, 2, 2, 3])
+        return "BioConsert[" + ",".join(nested_config(rng, depth - 1) for _ in range(k)) + "]"
+    return "ParCons(" + nested_config(rng, depth - 1) + ";0)"
+
+
 def gen_case(rng, ctx):
     for _ in range(20):
         _, dsc = gen.dataset(rng, classes="D1 D2 D2", nmax=6, mmax=5)
@@ -52,7 +66,7 @@ def gen_case(rng, ctx):
         scls, sch = "lookalike", gen.scheme_lookalike(rng)
     else:
         scls, sch = gen.scheme(rng, "S3 S4 S6 S1")
-    cfgs = rng.sample(CONFIGS, 7)
+    cfgs = rng.sample(CONFIGS, 6) + [nested_config(rng), nested_config(rng)]
     return {"complete": libx.normalise_raw(dsc), "incomplete": libx.normalise_raw(dsi), "scheme": sch, "scls": scls,
             "configs": cfgs, "libseed": rng.randrange(10 ** 6)}
 
@@ -76,7 +90,9 @@ def check_case(case, ctx):
             continue
         st, pred = call(alg.is_scoring_scheme_relevant_when_incomplete_rankings, scheme)
         ctx.count("predicate_calls")
-        ctx.count("predicate:" + cfg)
+        ctx.count("predicate:" + (cfg if cfg in CONFIGS else "nested-random"))
+        if cfg not in CONFIGS and cfg.count("[") + cfg.count("(") >= 2:
+            ctx.count("nested_depth2_configs")
         if st == "exc":
             ctx.violation(f"C14/predicate-raises-{type(pred).__name__}", f"{cfg}.is_scoring_scheme_relevant_when_"
                           f"incomplete_rankings failed: {exc_desc(pred)}", sub, observed=type(pred).__name__,
@@ -136,6 +152,8 @@ def reach(counters, tier, info):
     for cfg in CONFIGS:
         v = counters.get("predicate:" + cfg, 0)
         out.append({"name": f"predicate evaluated on {cfg}", "observed": v, "required": 200 * k, "ok": v >= 200 * k})
+    v = counters.get("nested_depth2_configs", 0)
+    out.append({"name": "random nested configurations of depth 2", "observed": v, "required": 300 * k, "ok": v >= 300 * k})
     for cfg in sorted(IFF):
         t, f = counters.get(f"pred:{cfg}:True", 0), counters.get(f"pred:{cfg}:False", 0)
         out.append({"name": f"both answers observed for {cfg}", "observed": f"True x{t}, False x{f}",
